@@ -20,7 +20,8 @@ PROP = 'C11'
 RUN_WALL = 30
 HARD_WALL = 600
 KINDS = ['identical', 'vectorized', 'vectorized', 'vectorized', 'pool_l',
-         'pool_l', 'verbose', 'ckpt', 'observe', 'observe', 'pool_s_order']
+         'pool_l', 'verbose', 'ckpt', 'observe', 'observe', 'pool_s_order',
+         'process_history', 'process_history']
 PROFILE = dict(p_pool_l=0.3, p_pool_s=0.15,
                prior_choices=['fn', 'fn', 'fn_inplace', 'fn_inplace', 'obj',
                               'obj_array', 'fn_dict'],
@@ -62,6 +63,12 @@ def make_pair(rng, cfg, timeline):
     base_ops = copy.deepcopy(ops)
     var_ops = copy.deepcopy(ops)
     if kind == 'identical':
+        pass
+    elif kind == 'process_history':
+        # base: a fresh interpreter; variant: this long-lived worker, after
+        # an unrelated sampler with other settings has run in it.  Nothing a
+        # sampler does may leak into the next one through process-global
+        # state.
         pass
     elif kind == 'vectorized':
         if cfg['lik']['prior'] in ('fn', 'fn_inplace') and \
@@ -112,8 +119,89 @@ def call_log_digest():
     return digest.digest(out)
 
 
+def polluter_case(seed):
+    """A short, unrelated sampler run with settings the paired runs do not
+    use (other network kwargs, dimension, blobs, batch size)."""
+    import random
+    rng = random.Random(seed)
+    cfg = e1.draw_cfg(rng, dict(n_networks=[1, 2], n_live=[30, 40],
+                                n_batch=[10, 20], p_frequent_bounds=0.0,
+                                p_long_sampling=0.0))
+    cfg['sampler']['nn_kwargs'] = dict(
+        hidden_layer_sizes=[5], max_iter=25, activation='tanh', alpha=0.01,
+        learning_rate_init=0.02, n_iter_no_change=5, tol=1e-3)
+    cfg['ckpt'] = False
+    cfg['pool_l'] = cfg['pool_s'] = None
+    cfg['cap_rows'] = 700
+    return dict(cfg=cfg, ops=[['finish']], tag='polluter')
+
+
+def exec_case_fresh(case):
+    """Execute a case in a fresh interpreter; return (result parts, call
+    log digest) or None."""
+    import subprocess
+    import sys
+    import tempfile
+    d = tempfile.mkdtemp(prefix='verif-c11-', dir=env.scratch_root())
+    try:
+        path = os.path.join(d, 'case.json')
+        with open(path, 'w') as f:
+            json.dump(case, f)
+        e = dict(os.environ)
+        e['VERIF_REEXEC'] = '1'
+        p = subprocess.run([sys.executable, os.path.join(
+            env.VERIF_ROOT, 'check'), 'C11', '--exec-case', path], env=e,
+            stdout=subprocess.PIPE, stderr=subprocess.DEVNULL, timeout=600)
+        for line in p.stdout.decode(errors='replace').splitlines():
+            if line.startswith('EXEC-CASE '):
+                return json.loads(line[len('EXEC-CASE '):])
+        return None
+    finally:
+        import shutil
+        shutil.rmtree(d, ignore_errors=True)
+
+
 def run_pair_cases(kind, base, var):
     mon.install_taps()
+    if kind == 'process_history':
+        fresh = exec_case_fresh(dict(base, tag='base'))
+        if fresh is None:
+            return dict(kind=kind, status='harness',
+                        error='fresh interpreter produced no result')
+        e1.execute(polluter_case(var['cfg']['pool_seed']), (),
+                   wall=RUN_WALL * 2)
+        rv = e1.execute(dict(var, tag='var'), (), wall=RUN_WALL * 3)
+        cv = call_log_digest()
+        out = dict(kind=kind)
+        for k in ('faults', 'pool', 'probes', 'sig_seq', 'sim_seconds'):
+            out[k] = rv.get(k)
+        if fresh['status'] != 'ok' or rv['status'] in ('timeout',
+                                                       'harness'):
+            out['status'] = 'discarded' if rv['status'] != 'harness' \
+                else 'harness'
+            out['error'] = rv.get('error')
+            return out
+        if rv['status'] == 'sut_exception':
+            out.update(status='violation', violation=dict(
+                prop=PROP, cls='exception',
+                msg='completed in a fresh interpreter, raised {} in a '
+                    'process that had run another sampler before'.format(
+                        rv.get('error')), detail={}))
+            return out
+        diff = [k for k in fresh['parts']
+                if fresh['parts'][k] != rv['result_parts'].get(k)]
+        if fresh['call_log'] != cv:
+            diff.append('call_log')
+        if diff:
+            out.update(status='violation', violation=dict(
+                prop=PROP, cls='result_differs:process_history',
+                msg='the same seeded run gives different {} in a fresh '
+                    'interpreter and in a process in which an unrelated '
+                    'sampler (other settings) had run before'.format(diff),
+                detail=dict(differs=diff)))
+            return out
+        out['status'] = 'ok'
+        return out
     rb = e1.execute(dict(base, tag='base'), (), wall=RUN_WALL * 3)
     cb = call_log_digest()
     rv = e1.execute(dict(var, tag='var'), (), wall=RUN_WALL * 3)
@@ -192,10 +280,21 @@ def prior_selfcheck():
 def main(argv=None):
     ap = argparse.ArgumentParser()
     ap.add_argument('--replay')
+    ap.add_argument('--exec-case')
     ap.add_argument('--runs', type=int)
     ap.add_argument('--no-minimise', action='store_true')
     args = ap.parse_args(argv)
     tier, seed = env.tier(), env.seed()
+    if args.exec_case:
+        import sys
+        with open(args.exec_case) as f:
+            case = json.load(f)
+        mon.install_taps()
+        r = e1.execute(case, (), wall=RUN_WALL * 3)
+        sys.stdout.write('EXEC-CASE ' + json.dumps(dict(
+            status=r['status'], parts=r.get('result_parts'),
+            call_log=call_log_digest())) + '\n')
+        return env.EXIT_OK
     t0 = time.time()
     import nautilus  # noqa: F401
     import sklearn.mixture  # noqa: F401
